@@ -1316,6 +1316,23 @@ fn judge_ols(c: &mut Case, x: &Array2<f64>, y: &Array2<f64>, intercept: bool, ou
             fail!("sse-above-reference", {"sse": sse, "sse_reference": sse_ref, "floor": floor, "w": out.w.to_vec(), "b": out.b, "reference": zr.column(0).to_vec()});
         }
     }
+    // Sharper reading of "no other coefficients give a smaller SSE": with Q an orthonormal basis of
+    // range([X,1]) the excess over the minimum is exactly |Q'r|^2, which can be evaluated to
+    // (eps*mag)^2 instead of eps*mag^2. A backward-stable solver leaves |Q'r| <~ eps*(mag + kappa*|r*|);
+    // forming the normal equations leaves eps*kappa*mag, orders of magnitude more on offset or
+    // badly scaled designs.
+    if let Some((q, kappa)) = orthonormal_basis(&a) {
+        let qtr = q.t().dot(&r);
+        let excess = qtr.dot(&qtr).sqrt();
+        let rstar = (r.dot(&r) - qtr.dot(&qtr)).max(0.0).sqrt();
+        let bound = eps * (mag + kappa * rstar);
+        let ratio = excess / bound.max(f64::MIN_POSITIVE);
+        c.resid("ols |Q'r| / (eps*(mag + kappa*|r*|))", ratio);
+        if kappa * eps < 1e-3 && !(ratio <= 4096.0 * (k as f64).sqrt()) {
+            fail!("fitted-values-not-the-projection", {"norm_Qt_r": excess, "bound_unit": bound, "ratio": ratio, "kappa_estimate": kappa,
+                "w": out.w.to_vec(), "b": out.b, "n": n});
+        }
+    }
     // direct reading: random perturbations never lower the SSE
     let mut evals = 1;
     for trial in 0..12 {
@@ -1337,6 +1354,41 @@ fn judge_ols(c: &mut Case, x: &Array2<f64>, y: &Array2<f64>, intercept: bool, ou
     }
     c.evals = evals;
     Ok(sse > floor)
+}
+
+/// Orthonormal basis of the column space by modified Gram-Schmidt applied twice (f64), and the
+/// condition estimate max|R_jj| / min|R_jj| of the column-scaled matrix. None if rank deficient.
+fn orthonormal_basis(a: &Array2<f64>) -> Option<(Array2<f64>, f64)> {
+    let (n, k) = a.dim();
+    if n < k {
+        return None;
+    }
+    let mut q = a.clone();
+    let mut rdiag = vec![0.0f64; k];
+    let mut cnorm = vec![0.0f64; k];
+    for j in 0..k {
+        cnorm[j] = q.column(j).dot(&q.column(j)).sqrt();
+        if !(cnorm[j] > 0.0) {
+            return None;
+        }
+        for _pass in 0..2 {
+            for i in 0..j {
+                let qi = q.column(i).to_owned();
+                let proj = qi.dot(&q.column(j));
+                q.column_mut(j).scaled_add(-proj, &qi);
+            }
+        }
+        let nrm = q.column(j).dot(&q.column(j)).sqrt();
+        // relative to the original column: a tiny remainder means numerical rank deficiency
+        if !(nrm > 1e-13 * cnorm[j]) {
+            return None;
+        }
+        rdiag[j] = nrm / cnorm[j];
+        q.column_mut(j).mapv_inplace(|v| v / nrm);
+    }
+    let mx = rdiag.iter().cloned().fold(0.0, f64::max);
+    let mn = rdiag.iter().cloned().fold(f64::INFINITY, f64::min);
+    Some((q, (mx / mn).max(1.0)))
 }
 
 fn run_ols_case<F: linfa::Float>(c: &mut Case, x: &Array2<f64>, y: &Array2<f64>, intercept: bool, layout: u8, desc: &Value) -> Result<bool, Outcome> {
@@ -1374,10 +1426,19 @@ fn run_ols_case<F: linfa::Float>(c: &mut Case, x: &Array2<f64>, y: &Array2<f64>,
 }
 
 fn ols_random(c: &mut Case) -> Outcome {
+    ols_random_shape(c, false)
+}
+
+/// tall designs (many samples per parameter) with offset / badly scaled columns
+fn ols_tall(c: &mut Case) -> Outcome {
+    ols_random_shape(c, true)
+}
+
+fn ols_random_shape(c: &mut Case, tall: bool) -> Outcome {
     let big = c.tier == Tier::Thorough && c.idx % 4 == 0;
-    let p = if big { c.rng.gen_range(1..=24) } else { c.rng.gen_range(1..=8) };
-    let intercept = c.rng.gen::<f64>() < 0.6;
-    let n = p + intercept as usize + if big { c.rng.gen_range(0..300) } else { c.rng.gen_range(0..50) };
+    let p = if tall { c.rng.gen_range(1..=4) } else if big { c.rng.gen_range(1..=24) } else { c.rng.gen_range(1..=8) };
+    let intercept = if tall { c.rng.gen::<f64>() < 0.8 } else { c.rng.gen::<f64>() < 0.6 };
+    let n = if tall { (p + 1) * c.rng.gen_range(16..60) } else { p + intercept as usize + if big { c.rng.gen_range(0..300) } else { c.rng.gen_range(0..50) } };
     let f32m = c.rng.gen::<f64>() < 0.4;
     let offset_mode = *gen::pick(&mut c.rng, &[0u8, 1, 2, 3, 4]);
     let scale_mode = *gen::pick(&mut c.rng, &[0u8, 1, 1, 2]);
@@ -1450,6 +1511,7 @@ pub fn run(ctx: &Ctx) {
     ctx.assume("for l1_ratio*penalty = 0 linfa's gap equals the primal value and its stopping rule cannot fire; such runs are in the domain when an exact cyclic coordinate descent converges within a quarter of the iteration budget, and are judged against the configured tolerance");
 
     ctx.family("ols", ctx.tier.pick(1500, 12000), |c| ols_random(c));
+    ctx.family("ols-tall", ctx.tier.pick(800, 6000), |c| ols_tall(c));
     ctx.family("ols-lattice", 2 * 2 * 64 * 27, |c| {
         let idx = c.idx;
         ols_lattice(c, idx)
